@@ -14,6 +14,9 @@ def configs(tier):
         out.append(dict(kind=kind, n=3, cfg=cfg, hidden=False, d=2 if tier == "thorough" else 1, assertions=0, judge="c16", snap=True))
         out.append(dict(kind=kind, n=4, cfg=dict(cfg, extras=tier == "thorough"), hidden=False, d=1,
                         assertions=1 if kind == "light" else 0, judge="c16", snap=True))
+    # links are nodes like any other for the hooks (a structural call on a link notifies the link, not its target)
+    out.append(dict(kind="symmix", n=4, cfg=dict(CFG, nonnode=False, extras=False, new=("symlink>a",)), hidden=False, d=0, assertions=0,
+                    judge="c16", snap=True))
     # user classes with value semantics: what hooks observe must not depend on __eq__ (e.g. list.remove)
     for kind in ("trap:light:eq", "trap:eq"):
         out.append(dict(kind=kind, n=3, cfg=dict(CFG, nonnode=False), hidden=False, d=1, assertions=0, judge="c16", snap=True))
